@@ -235,6 +235,24 @@ CLAIMED['C18'] = dict(
     note=NOTE_COMMON + 'FIPS-197, xoroshiro128+, Trivium and the LFSR are transcribed by hand in the harness (AES also in Lean).',
     technique='Lean 4 proof by kernel evaluation over complete tables (decide +kernel, no axioms) + reference-implementation oracle')
 
+CLAIMED['C12'] = dict(
+    text='PARTIAL. Lean theorems over tables regenerated from importexport.py on every run: every entry of the flop_next '
+         'table equals the Yosys cell of that name for all (D,E,S,R,Q) (kernel evaluation over the complete table); the '
+         'parser\'s dff_names list equals the table\'s keys and has no duplicate; each special-cased cover equals the BLIF '
+         'on-set semantics of its token list and drives the signal listed after its inputs; the generic rtl_any/rtl_all '
+         'construction equals the on-set semantics for covers of any size (induction); each .bench gate is correct on two '
+         'sources, and the full n-source statement is proved FALSE of the importer (known finding bench-nary-gate, replayed '
+         'on the real importer). Oracle: random BLIF files (general covers with don\'t-cares, constant/empty covers, .latch '
+         'init 0-3, every listed cell, one- and two-level .subckt nesting, outputs read internally, vector ports, both '
+         'merge_io_vectors settings) and random .bench files are imported by the real functions, the imported block is run '
+         'in the Lean Spec model and compared cycle by cycle with an interpreter of the file. The parser and the model/vector '
+         'wiring are covered by that comparison only, not by a theorem.',
+    design='4 C12',
+    note=NOTE_COMMON + 'The BLIF/bench interpreter in tools/checks/c12.py (written from the BLIF format description and the '
+         'Yosys simcells) and Model/Graph/Blif.lean are the specification.',
+    technique='Lean 4 proof (complete-table kernel evaluation + induction over covers) on tables regenerated from the source '
+              '+ file-interpreter oracle through the Lean Spec model')
+
 CLAIMED['C19'] = dict(
     text='PARTIAL. Lean theorems, for all shapes and widths: the bit offset of element (I,J) given by the constructor from '
          'a WireVector equals the one given by to_wirevector (conversion round trip is the identity on layout); C-order '
